@@ -1,4 +1,5 @@
 import Py4hwV.Proofs.C01FlatInst
+import Py4hwV.Proofs.C01FlatStore
 /-
   C01, design level — FLAT designs: one module whose items are continuous assigns of the inline forms proved in
   Props/C01.lean over declared nets, plus flattened `Reg` instances (`reg rq = RV`, the always block of `C01.regBody`,
@@ -55,6 +56,26 @@ theorem settle_reaches {as topo : List (LHS × Expr)} (hp : as.Perm topo) (hA : 
   · have h2 := iter_eq_topo hp hA r0 hok (j + 1) (by omega)
     rw [FlatM.iter_succ'] at h2
     rw [h2, h1]
+
+/-- **the SHIPPED interpreter computes it**: on a design without `always @(*)` blocks whose assigns drive whole nets,
+    one `V.settlePass` over the HashMap store is one `passA` on its reader, and `V.settleLoop` — from ANY store, with the
+    fuel `Sim.settle` gives it or any fuel above the number of assigns — stops with success at the settled store -/
+theorem shipped_settle (f : V.Flat) (hns : NoStar f) {topo : List (LHS × Expr)} (hp : f.assigns.Perm topo) (hA : Acyc topo)
+    (s : Store) (hok : ∀ a, a ∈ f.assigns → LhsOk s.rd a.1) (fuel : Nat) (hfuel : f.assigns.length < fuel) :
+    (settlePass f s).rd = passA f.assigns s.rd ∧
+    (settleLoop f fuel s).2 = true ∧ (settleLoop f fuel s).1.rd = passA topo s.rd ∧
+    Settled f.assigns (settleLoop f fuel s).1.rd := by
+  have h := settleLoop_rd f hns hp hA fuel s hok hfuel
+  have h2 := settle_reaches hp hA s.rd hok f.assigns.length (Nat.le_refl _)
+  refine ⟨settlePass_rd f hns s hok, h.1, ?_, ?_⟩
+  · rw [h.2]; exact h2.1
+  · rw [h.2]; exact h2.2.1
+
+/-- `Sim.settle` of the shipped interpreter on a flat design: no "did not settle" error, store = `settleA` -/
+theorem shipped_sim_settle (m : Sim) (hns : NoStar m.flat) {topo : List (LHS × Expr)} (hp : m.flat.assigns.Perm topo)
+    (hA : Acyc topo) (hok : ∀ a, a ∈ m.flat.assigns → LhsOk m.st.rd a.1) :
+    m.settle.st.rd = settleA m.flat.assigns m.st.rd ∧ m.settle.errors = m.errors :=
+  ⟨(sim_settle_rd m hns hp hA hok).1, (sim_settle_rd m hns hp hA hok).2.1⟩
 
 /-! ## Stage 1 (c): correspondence with the simulator, for every well-formed flat design -/
 
